@@ -189,7 +189,7 @@ func (ls *listenServer) route(r *core.Msg, slot int32) (string, bool) {
 }
 
 // OnMoved process the redis moved/ask packet
-func (ls *listenServer) OnMoved(addr string, slot int32, s core.SConn, f *core.Frag) {
+func (ls *listenServer) OnMoved(addr string, slot int32, s core.SConn, f *core.Frag) bool {
 	f.RspBody = f.RspBody[:0]
 
 	logging.Infof("[%dm|%df][%dc|%ds] moved/ask happen, old_addr: %s new_addr: %s, slot: %d, req: %s",
@@ -200,20 +200,21 @@ func (ls *listenServer) OnMoved(addr string, slot int32, s core.SConn, f *core.F
 	if !ok {
 		logging.Errorf("[%dm|%df][%dc|%ds] moved/ask happen, proxy pool get addr %s failed",
 			f.MsgId(), f.Id, f.OwnerFd(), s.Fd(), addr)
-		return
+		return false
 	}
 
 	sConn := pool.Get()
 	if sConn == nil {
 		logging.Errorf("[%dm|%df][%dc|%ds] proxy dial %s failed",
 			f.MsgId(), f.Id, f.OwnerFd(), s.Fd(), addr)
-		return
+		return false
 	}
 
 	delete(f.Peer.Fd2Slot, s.Fd())
 	f.Peer.Fd2Slot[sConn.Fd()] = slot
 
 	sConn.EnqueueOutFrag(f)
+	return true
 }
 
 // OnCClosed fires when a client connection has been closed.
